@@ -1,6 +1,7 @@
 package vc
 
 import (
+	"regexp"
 	"encoding/json"
 	"flag"
 	"fmt"
@@ -294,6 +295,43 @@ func CheckMain(args []string) int {
 		fmt.Printf("VIOLATION property=%s replay=%s obligation=%s status=%s%s\n", *prop, rp, v.O.Name, v.Status, suffix)
 		exit = 1
 	}
+	// bounded stand-ins (thorough tier): executable differential checks of code outside the
+	// verifier's reach, run on the real code through a test overlay; always labelled bounded
+	var standins []map[string]any
+	standinFailures := 0
+	if *tier == "thorough" {
+		files, _ := filepath.Glob(filepath.Join(*root, "standins", *prop, "*.go.txt"))
+		sort.Strings(files)
+		for _, f := range files {
+			src, err := os.ReadFile(f)
+			if err != nil {
+				continue
+			}
+			meta := map[string]string{}
+			for _, l := range strings.Split(string(src), "\n") {
+				if m := regexp.MustCompile(`^// standin: (\w+)=(.*)$`).FindStringSubmatch(l); m != nil {
+					meta[m[1]] = strings.TrimSpace(m[2])
+				}
+			}
+			dir := filepath.Join(*repo, meta["dir"])
+			out, rerr := RunOverlay(dir, string(src), filepath.Join(*root, "work", *prop, "standin"))
+			ok := rerr == nil && strings.Contains(out, "REPLAY-STANDIN-OK")
+			cases := ""
+			if m := regexp.MustCompile(`REPLAY-STANDIN-OK cases=(\d+)`).FindStringSubmatch(out); m != nil {
+				cases = m[1]
+			}
+			standins = append(standins, map[string]any{"name": meta["name"], "bound": meta["bound"], "cases": cases, "label": "bounded, not proved", "passed": ok, "file": f})
+			if !ok {
+				os.MkdirAll(repDir, 0o755)
+				rp := filepath.Join(repDir, "standin-"+safeFile(filepath.Base(f))+".json")
+				b, _ := json.MarshalIndent(map[string]any{"property": *prop, "standin": meta["name"], "bound": meta["bound"], "test_file": f, "output": out, "how_to_run": "the file is a Go test for directory " + meta["dir"] + " (go test -overlay, see DESIGN.md)"}, "", " ")
+				os.WriteFile(rp, b, 0o644)
+				fmt.Printf("VIOLATION property=%s replay=%s obligation=standin:%s status=bounded-check-failed\n", *prop, rp, strings.ReplaceAll(meta["name"], " ", "_"))
+				exit = 1
+				standinFailures++
+			}
+		}
+	}
 	// evidence
 	trusted := []string{"go/packages + go/ssa lowering of the current /repo tree (build tag verif)", "SMT solvers z3 4.8.12, z3 5.1.0, cvc5 1.0.x", "govc VC generator (memory model and loop cutting of DESIGN.md §2)"}
 	for _, t := range eng.CS.Trust {
@@ -313,7 +351,7 @@ func CheckMain(args []string) int {
 		"checker_cmd":  fmt.Sprintf("govc check -property %s -tier %s (z3 4.8.12 | z3-new 5.1.0 | cvc5 raced, %d s per obligation)", *prop, *tier, secs),
 		"trusted_base": trusted, "functions_under_contract": fuc, "by_solver": bySolver, "solver_time_s": float64(solverMs) / 1000,
 		"vacuity_covers": nCover, "vacuity_covers_unknown": nCoverUnknown,
-		"unreachable_return_points": deadReturns,
+		"unreachable_return_points": deadReturns, "bounded_standins": standins,
 		"samples": samples, "undecided": undecided, "known_findings": known, "exhaustive": false,
 		"explanation": "every obligation generated from the SSA of the functions under contract was raced on three SMT solvers; unsat = discharged",
 		"evaluations": nObl, "distinct_nontrivial": nDis,
@@ -323,7 +361,7 @@ func CheckMain(args []string) int {
 	b, _ := json.MarshalIndent(ev, "", " ")
 	os.WriteFile(filepath.Join(*root, "evidence", *prop+".json"), b, 0o644)
 	fmt.Printf("property %s tier %s: %d obligations, %d discharged, %d known findings, %d violations, %d undecided units, %d covers (%d unknown), %.1fs\n",
-		*prop, *tier, nObl, nDis, len(known), len(violations), len(undecided), nCover, nCoverUnknown, time.Since(t0).Seconds())
+		*prop, *tier, nObl, nDis, len(known), len(violations)+standinFailures, len(undecided), nCover, nCoverUnknown, time.Since(t0).Seconds())
 	if nObl == 0 && len(undecided) == 0 {
 		fmt.Println("ENGINE-ERROR: no obligations generated for", *prop)
 		if exit == 0 {
